@@ -252,7 +252,7 @@ Fixpoint sortedb (L : Guest.layout) {struct L} : bool :=
 Definition wf_tgt (c : case07) : bool :=
   match q_tgt c, q_par c with
   | 0, [pre; n] => (pre <=? 4096) && (HB + pre + n <=? ISZ_MAX)
-  | 1, [A; n] => (A + n <? W64) && (n <=? ISZ_MAX)
+  | 1, [A; n] => (0 <? A) && (A + n <? W64) && (n <=? ISZ_MAX)
   | 2, [g; n] => (0 <? n) && (g + n <? W64) && (HB + n <=? ISZ_MAX)
   | 3, par => match layout_of par with
               | Some L => negb (length L =? 0)%nat && wf_layb (W64 - 1) L && sortedb L
